@@ -29,7 +29,7 @@ E0 == [op |-> "", t |-> 0, n |-> 0, c |-> 0, d |-> 0, a |-> 0, k |-> "", pos |->
 \* history counters of the monitor that only the timing clauses (strict mode) read are normalised away, and the
 \* counters that matter are saturated, so that the reachable state space is finite
 Sat(x, m) == IF x > m THEN m ELSE x
-Norm(st) == [st EXCEPT !.seq = 0, !.now = 0, !.alrm = 0, !.lastcrash = 0,
+Norm(st) == [st EXCEPT !.seq = 0, !.now = 0, !.alrm = 0, !.lastcrash = 0, !.starts = Sat(@, 2),
                        !.msgs = [n \in 1..NMAX |-> [st.msgs[n] EXCEPT !.recs = [i \in 1..Len(st.msgs[n].recs) |->
                                     [st.msgs[n].recs[i] EXCEPT !.satt = 0, !.tatt = 0, !.kc = Sat(@, 2), !.att = Sat(@, MaxTime + 1)]]]]]
 Feed(e) == LET r == Step(mon, e, FALSE) IN mon' = Norm(r.st) /\ verdict' = (IF verdict = "" THEN r.v ELSE verdict)
